@@ -337,6 +337,9 @@ class OpsMixin:
         if isinstance(a, Obj) and isinstance(b, Obj):
             return a is b
         if a is Ellipsis or b is Ellipsis:
+            x = b if a is Ellipsis else a
+            if isinstance(x, UVal) and x.cls is None:
+                return SBool(x.t == self.to_u(Ellipsis), True)
             return a is b
         if isinstance(a, (ClassRef, ExtRef, Builtin)) or isinstance(b, (ClassRef, ExtRef, Builtin)):
             return a == b
